@@ -92,7 +92,7 @@ CHECKS = {"C05": c05}
 
 def c11(tier, seed, replay_path=None):
     binary = fc.build()
-    kinds = {"events"}
+    kinds = {"events", "ingestion-blocked"}
     env = {"VERIF_NOTIFY": "1"}
     if replay_path:
         payload = json.load(open(replay_path))
@@ -116,12 +116,27 @@ def c11(tier, seed, replay_path=None):
     ns = (1500, 1000) if tier == "quick" else (12000, 8000)
     gens = [("h", lambda: fc.generate("C11h", fc.chain_consts(3 if tier == "quick" else 4, 5, MaxFuture=1, MaxForb=1, MaxResub=1, MaxRestart=1, Deviations=D, Emit="paths"), sample=ns[0], rng=rng)),
             ("f", lambda: fs.generate("C11f", fs.steps_consts(4, MaxKills=0, MaxErrs=1, MaxFuture=0, Deviations=D, Emit="paths"), sample=ns[1], rng=rng))]
+    # long histories (TLC simulation along driver-chosen shapes: a main chain with a few forks and orphans): queues,
+    # per-channel workers and the like only show their limits after hundreds of events, one channel blocked all the while
+    ln = 180 if tier == "quick" else 600
+    def long_gen():
+        shapes = []
+        for i in range(3):
+            sh = []
+            for k in range(1, ln + 1):
+                r = rng.random()
+                sh.append(k - 1 if r < 0.93 else (rng.randrange(0, k) if r < 0.985 else ln + 1))
+            shapes.append(sh)
+        return fc.generate("C11long", fc.chain_consts(ln, ln, Works=(1, 2), MaxFuture=ln, MaxForb=0, Deviations=D, Emit="paths"),
+                           simulate="num=3", depth=ln + 1, seed=seed, shapes=shapes, sample=3, rng=rng)
+    gens.append(("long", long_gen))
     aggs, gen_counts = [], {}
     for tag, g in gens:
         path, n, res = g()
         runs.append(res)
         gen_counts[tag] = {"behaviours": n}
-        aggs.append(fc.replay(binary, path, seed, level=0, extra_env=env))
+        # (the channel set-up varies with the behaviour's index in its process: the three long ones share one process)
+        aggs.append(fc.replay(binary, path, seed, level=0, extra_env=env, nproc=1 if tag == "long" else None))
         if tag == "h":
             # a slice of the same histories with the REAL websocket server (centrifuge node) and a real subscribed client
             sub = os.path.join(os.path.dirname(path), "C11ws.jsonl")
